@@ -12,6 +12,9 @@ use tracing::{info, trace};
 /// Global counter for [spawn_counted] and [spawn_counted_w_handle]
 pub static PENDING_HANDLES: AtomicUsize = AtomicUsize::new(0);
 
+/// Counter for the tasks that announce a committed local transaction, see [spawn_counted_announce]
+pub static PENDING_ANNOUNCEMENTS: AtomicUsize = AtomicUsize::new(0);
+
 /// Spawn `fut` as a [CountedFut] (increments/decrements an [AtomicUsize])
 #[track_caller]
 pub fn spawn_counted<F>(fut: F) -> tokio::task::JoinHandle<F::Output>
@@ -20,6 +23,18 @@ where
     F::Output: Send,
 {
     tokio::spawn(CountedFut::new(fut, &PENDING_HANDLES))
+}
+
+/// Like [spawn_counted], for the task that announces a committed local transaction to the
+/// subscriptions, the update feeds and the cluster. These tasks are counted a second time so
+/// that a shutdown can wait for them before it winds the subscriptions down.
+#[track_caller]
+pub fn spawn_counted_announce<F>(fut: F) -> tokio::task::JoinHandle<F::Output>
+where
+    F: Future + Send + 'static,
+    F::Output: Send,
+{
+    spawn_counted(CountedFut::new(fut, &PENDING_ANNOUNCEMENTS))
 }
 
 /// Spawn `fut` as a [CountedFut] (increments/decrements an [AtomicUsize])
@@ -107,6 +122,17 @@ where
         trace!("polling counted future");
         let this = self.project();
         this.fut.poll(cx)
+    }
+}
+
+/// Waits (for a minute at most) for [PENDING_ANNOUNCEMENTS] to reach zero: every local
+/// transaction committed so far has been handed to the subscriptions and update feeds.
+pub async fn wait_for_pending_announcements() {
+    for _ in 0..6000 {
+        if PENDING_ANNOUNCEMENTS.load(Ordering::SeqCst) == 0 {
+            break;
+        }
+        tokio::time::sleep(Duration::from_millis(10)).await;
     }
 }
 
